@@ -10,7 +10,9 @@ pub mod c05;
 pub mod c06;
 pub mod c07;
 pub mod c08;
+pub mod c11;
 pub mod c12;
+pub mod c14;
 pub mod evt;
 pub mod smoke;
 
@@ -26,7 +28,9 @@ pub fn dispatch(a: &ShardArgs) -> Result<(), String> {
         "c06" => c06::run(a),
         "c07" => c07::run(a),
         "c08" => c08::run(a),
+        "c11" => c11::run(a),
         "c12" => c12::run(a),
+        "c14" => c14::run(a),
         "smoke" => smoke::run(a),
         other => Err(format!("unknown check {other}")),
     }
